@@ -240,8 +240,8 @@ impl<'a> G<'a> {
     }
 
     fn observe(&mut self) {
-        let mut a = self.r.weighted(&[4, 3, 2, 2, 1]) as u32;
-        if a >= 3 && !self.twin {
+        let mut a = self.r.weighted(&[4, 3, 2, 2, 1, 1]) as u32;
+        if (a == 3 || a == 4) && !self.twin {
             if self.en_twin {
                 let tf = self.r.below(self.n as u32 + 1);
                 let tb = self.r.below(self.n as u32 + 1);
@@ -253,8 +253,8 @@ impl<'a> G<'a> {
                 a = 2;
             }
         }
-        let cbs = self.len * self.w * if a >= 2 { 2 } else { 1 };
-        if a == 0 && self.faulty && self.faults_left > 0 && self.r.chance(1, 4) {
+        let cbs = self.len * self.w * if (2..=4).contains(&a) { 2 } else { 1 };
+        if (a == 0 || a == 5) && self.faulty && self.faults_left > 0 && self.r.chance(1, 4) {
             // F8: the formatter sink fails at its k-th write
             self.faults_left -= 1;
             let b = self.r.range(1, 3 * cbs as u32 + 8);
@@ -378,7 +378,7 @@ impl<'a> G<'a> {
             9 => self.adapt(),
             7 => self.inner_step(),
             _ => {
-                let a = self.r.below(4);
+                let a = self.r.below(8);
                 self.push(Op::a(OpK::CloneProbe, a));
             }
         }
@@ -545,7 +545,7 @@ impl<'a> G<'a> {
                     }
                     2 => self.push(Op::new(OpK::Len)),
                     _ => {
-                        let a = self.r.below(4);
+                        let a = self.r.below(8);
                         self.push(Op::a(OpK::CloneProbe, a));
                     }
                 }
@@ -755,5 +755,8 @@ pub fn gen_plan(seed: u64, run: u64) -> Plan {
     let ops = g.ops;
     // element-shape swarm dimension (drawn last so that the plans of earlier versions keep their shape)
     let elem = if is_mat { 0 } else { [0, 0, 0, 0, 0, 0, 0, 0, 0, 3, 1, 1, 1, 1, 2, 2][rng.below(16) as usize] };
-    Plan { kind, faulty, elem, ops }
+    // a quarter of the runs give every element the same payload value, so that comparisons
+    // between iterators in different cursor states do not stop at the first pair
+    let uniform = rng.chance(1, 4);
+    Plan { kind, faulty, elem, uniform, ops }
 }
